@@ -69,6 +69,22 @@ fn felts_bytes(v: &[F]) -> Vec<u8> {
 fn kernel_digests(seed: u64) -> BTreeMap<String, String> {
     let mut r = Rng::new(seed);
     let mut out = BTreeMap::new();
+    // element-wise batch helpers on every length 0..=40 (packed body + scalar leftovers)
+    {
+        use plonky2::field::batch_util::{batch_add_inplace, batch_multiply_inplace};
+        let mut acc: Vec<u8> = Vec::new();
+        for len in 0..=40usize {
+            let a: Vec<F> = (0..len).map(|_| F::from_canonical_u64(r.felt_biased())).collect();
+            let b: Vec<F> = (0..len).map(|_| F::from_canonical_u64(r.felt())).collect();
+            let mut x = a.clone();
+            batch_add_inplace(&mut x, &b);
+            acc.extend(felts_bytes(&x));
+            let mut y = a.clone();
+            batch_multiply_inplace(&mut y, &b);
+            acc.extend(felts_bytes(&y));
+        }
+        out.insert("batch_util_0_40".into(), h64(&acc));
+    }
     for log in [3usize, 6, 9] {
         let n = 1 << log;
         let coeffs: Vec<F> = (0..n).map(|_| F::from_canonical_u64(r.felt_biased())).collect();
